@@ -99,6 +99,7 @@ class H11Protocol:
         )
         self.context = context
         self.keep_alive_requests = 0
+        self.request_complete = False
         self.send = send
         self.server = server
         self.ssl = ssl
@@ -161,12 +162,20 @@ class H11Protocol:
             try:
                 event = self.connection.next_event()
             except h11.RemoteProtocolError as error:
+                if self.stream is not None and self.request_complete:
+                    # Unexpected data after a complete request (e.g. a
+                    # pipelined request on a connection that is about
+                    # to close), it must not replace or cut short the
+                    # response in progress. The connection closes
+                    # when that response has been sent.
+                    break
                 if self.connection.our_state in {h11.IDLE, h11.SEND_RESPONSE}:
                     await self._send_error_response(error.error_status_hint)
                 await self.send(Closed())
                 break
             else:
                 if isinstance(event, h11.Request):
+                    self.request_complete = False
                     await self.send(Updated(idle=False))
                     await self._check_protocol(event)
                     await self._create_stream(event)
@@ -180,6 +189,7 @@ class H11Protocol:
                 elif isinstance(event, h11.Data):
                     await self.stream.handle(Body(stream_id=STREAM_ID, data=event.data))
                 elif isinstance(event, h11.EndOfMessage):
+                    self.request_complete = True
                     await self.stream.handle(EndBody(stream_id=STREAM_ID))
                 elif isinstance(event, Data):
                     # WebSocket pass through
